@@ -2,6 +2,7 @@ package sqlittle
 
 import (
 	"fmt"
+	"math"
 
 	sdb "github.com/alicebob/sqlittle/db"
 	"github.com/alicebob/sqlittle/sql"
@@ -45,7 +46,12 @@ func asDbKey(k Key, cols []sdb.IndexColumn) (sdb.Key, error) {
 		case int:
 			dbk[i].V = int64(kv)
 		case uint:
-			dbk[i].V = int64(kv)
+			if kv > math.MaxInt64 {
+				// too big for an integer: SQLite reads such a number as a real
+				dbk[i].V = float64(kv)
+			} else {
+				dbk[i].V = int64(kv)
+			}
 		case int32:
 			dbk[i].V = int64(kv)
 		case uint32:
